@@ -16,6 +16,12 @@ from mc.refmodels.editdist import wagner_fischer, best_substring_distance, same
 
 ID = 'C13'
 
+MANIFEST = dict(
+    technique='explicit-state enumeration of all sequence pairs up to renaming (restricted-growth strings), real code vs Wagner-Fischer / brute-force substring oracle',
+    text='Bounded exhaustive: every pair of sequences with |s|+|t| <= 7 (quick) / 9 (thorough) up to symbol renaming, in four symbol renderings, plus the full cost cube on short pairs and all 1-3-tuples of a summary pool, is executed on the real functions and compared with an independent full-matrix reference. Optimality is a for-all over alignments, so only enumeration against a reference decides it.',
+    note='Assumes the functions compare symbols only for equality (renaming invariance); sequences longer than the bound are not explored.',
+    ref='3/C13')
+
 RENDERS = ['int', 'str', 'tok', 'mixed']
 MIXED = ['a', 1, '1', 'b', 2, '2', 'c', 3, '3', 'd', 4, '4']
 TOK = ['a', 'bb', 'ccc', 'b', 'aa', 'cc', 'abc', 'c', 'ab', 'bc', 'ca', 'cab']
